@@ -40,7 +40,7 @@ def run(ctx):
                         timeout=T, workers=4, name="MCHistIndexExt")
     # R: TLC-generated behaviours executed on the real objects, judged by the trace specification
     for bm, cfg in ((0, "state/MCHistIndexSim"), (34, "state/MCHistIndexExtSim")):
-        plans = mbt_plans(ctx, cfg, ctx.pick(40, 400), "MBT-bitmap%d" % bm)
+        plans = mbt_plans(ctx, cfg, ctx.pick(25, 400), "MBT-bitmap%d" % bm)
         pp = os.path.join(ctx.scratch, "plans%d.json" % bm)
         write_json(pp, plans)
         tp = os.path.join(ctx.scratch, "plan%d.ndjson" % bm)
@@ -52,7 +52,7 @@ def run(ctx):
     # V: seeded lives that steer to the real section/block boundaries
     for bm in (0, 2, 34):
         tp = os.path.join(ctx.scratch, "rec%d.ndjson" % bm)
-        s, _ = ctx.drive(drv, ["-mode", "record", "-trace", tp, "-bitmap", bm, "-n", ctx.pick(2, 8), "-steps", ctx.pick(6, 10)],
+        s, _ = ctx.drive(drv, ["-mode", "record", "-trace", tp, "-bitmap", bm, "-n", ctx.pick(2, 8), "-steps", ctx.pick(3 if bm == 0 else 4, 10)],
                          name="c19-record-%d" % bm, timeout=T)
         ok, consumed, total, r = ctx.validate("state/HistIndexTrace", tp, cfg="state/HistIndexTrace%d" % bm,
                                               ntraces=s["traces"], timeout=T, name="HistIndexTrace-rec-%d" % bm)
